@@ -555,4 +555,64 @@ def r58e(F):
     return r
 
 
-RULES = [r57, r58, r59, r60, r58e]
+
+def r60s(F):
+    r = RuleResult("R60s", "a file's PASS / FAIL line is that file's own verdict",
+                   "wherever the front end chooses between a text containing PASS and one containing FAIL, the condition is the result "
+                   "of the validation of that file itself (a direct call, or an immutable binding of one) - not a flag that "
+                   "accumulates over the files visited so far (syntax tree of main.rs)", floor=1)
+    from ..facts import syn_walk
+    tree = F.syn.get("main.rs")
+    need(tree is not None, "main.rs not in the syntax facts")
+    VERDICT_FNS = {n.split("::")[-1] for n in verdict_functions(F) if n.startswith("ucg::")} | {"do_validate"}
+
+    def lits(node):
+        out = []
+        def v(n):
+            if n.get("k") == "lit" and n.get("t") == "str":
+                out.append(n.get("v") or "")
+        syn_walk(node, v)
+        return out
+
+    fns = []
+    syn_walk(tree, lambda n: fns.append(n) if n.get("k") == "fn" else None)
+    n_ = 0
+    for f in fns:
+        locals_ = []
+        syn_walk(f, lambda n: locals_.append(n) if n.get("k") == "local" else None)
+        assigned = set()
+        def va(n):
+            if n.get("k") in ("assign", "assign_op", "binary_assign") and isinstance(n.get("l"), dict) and n["l"].get("k") == "path":
+                assigned.add(n["l"]["v"])
+        syn_walk(f, va)
+        ifs = []
+        syn_walk(f, lambda n: ifs.append(n) if n.get("k") == "if" and n.get("else") is not None else None)
+        for node in ifs:
+            a, b = lits(node.get("then")), lits(node.get("else"))
+            pa, fa = any("PASS" in x for x in a), any("FAIL" in x for x in a)
+            pb, fb = any("PASS" in x for x in b), any("FAIL" in x for x in b)
+            if not ((pa and fb and not fa and not pb) or (fa and pb and not pa and not fb)):
+                continue
+            cond = node.get("cond") or {}
+            while cond.get("k") in ("unary", "paren") and isinstance(cond.get("e"), dict):
+                cond = cond["e"]
+            ok, why = False, "the condition is not the validation of the file"
+            if cond.get("k") == "call" and isinstance(cond.get("f"), dict) and str(cond["f"].get("v", "")).split("::")[-1] in VERDICT_FNS:
+                ok, why = True, "decided by %s(..) of this file" % cond["f"]["v"]
+            elif cond.get("k") == "path":
+                v_ = cond.get("v")
+                inits = [l for l in locals_ if l.get("pat") == v_]
+                direct = [l for l in inits if isinstance(l.get("init"), dict) and l["init"].get("k") == "call" and
+                          str((l["init"].get("f") or {}).get("v", "")).split("::")[-1] in VERDICT_FNS]
+                if direct and len(inits) == 1 and v_ not in assigned:
+                    ok, why = True, "decided by `%s`, bound once to the validation of this file" % v_
+                else:
+                    why = "decided by `%s`, which %s" % (v_, "is assigned elsewhere (it accumulates over the files visited so far)" if v_ in assigned else
+                                                        "is not bound to the validation of this file")
+            r.inst("%s:label#%d" % (f.get("name"), n_), "src/main.rs:%s" % node.get("ln"), ok,
+                   why if ok else "%s: a passing file is listed as FAIL (or a failing one as PASS) depending on what was tested before it" % why)
+            n_ += 1
+    need(n_, "no choice between a PASS and a FAIL text found in main.rs (labels are chosen some other way)")
+    return r
+
+RULES = [r57, r58, r59, r60, r58e, r60s]
